@@ -369,7 +369,7 @@ def main(argv):
                 hs = [h.split(" ")[1] for h in hout[k:k + len(recs)]]
                 k += len(recs)
                 mlines.append("S %d %s %s" % (r["n"], data.hex() if data else "-", ",".join(hs) if hs else "-"))
-            rc, mout, merr = run_lines(drv, mlines, timeout=900)
+            rc, mout, merr = codeclog.run_lines_bigstack(drv, mlines, timeout=1800)
             if len(mout) != len(mlines):
                 c.broken.append("C06 model driver produced %d lines for %d runs: %s" % (len(mout), len(mlines), merr[-200:]))
             else:
